@@ -161,3 +161,112 @@ def bfs(pid, harness, alphabet, depth, enabled, canon, judge, first_level=None, 
         frontier = sorted(nxt)
     return {"states": len(seen), "transitions": n_trans, "violations": viol, "samples": samples,
             "verdicts": verdicts, "capped": capped, "depth": depth}
+
+
+# ------------------------------------------------------------------ publications waiting across stop() / start()
+
+class Restart:
+    """k publications (priority 1 or default) made while the fabric runs, then - without waiting for the delivery
+    threads - stop(), optionally more publications while it is stopped, and start() again.  Used by C06 (every
+    publication reaches each subscription exactly once) and C08 (equal priorities in publish order) with all schedules
+    of the main thread against the delivery threads to the deviation bound."""
+    name = "fabric-restart"
+    horizon = 6000
+    lock_points = False
+    fair_k = 80
+
+    def __init__(self, pid, mode="line"):
+        self.pid, self.mode, self._ready = pid, mode, False
+        self.name = "%s-restart" % pid.lower()
+
+    def setup_process(self):
+        if not self._ready:
+            aoenv.install()
+            sched.monitor(fabric_codes(), self.mode)
+            self._ready = True
+
+    def body(self, s, p):
+        aoenv.reset()
+        fab = ao.ActiveFabric()
+        qs = make_queues()
+        fab.subscribe(qs[0], Event(signal="A"))
+        fab.subscribe(qs[1], Event(signal="A"), queue_type="lifo")
+        fab.start()
+        s.settle()
+        s.open_window()
+        labels = []
+
+        def pub(k, prio):
+            labels.append("A/r%d" % k)
+            if prio is None:
+                fab.publish(Event(signal="A", payload="r%d" % k))
+            else:
+                fab.publish(Event(signal="A", payload="r%d" % k), priority=prio)
+        k = 0
+        for prio in p["before"]:
+            pub(k, prio)
+            k += 1
+        for _ in range(p.get("cycles", 1)):
+            fab.stop()
+            for prio in p.get("during", ()):
+                pub(k, prio)
+                k += 1
+            fab.start()
+        s.settle()
+        return {"published": labels, "fifo": contents(qs[0]), "lifo": contents(qs[1]), "live": fabric_threads(s),
+                "thread_exceptions": [x[:3] for x in s.thread_exceptions]}
+
+    def on_abort(self, s, p):
+        return {"threads": [x for x in s.snapshot if not x[2]][:8]}
+
+    def check(self, p, ex):
+        pid = self.pid
+        if ex.verdict != "done":
+            return [("%s/restart/%s" % (pid, ex.verdict), "%r ended with %s: %r" % (p, ex.verdict, ex.obs))]
+        o = ex.obs
+        out = []
+        if o["thread_exceptions"]:
+            out.append(("%s/restart/exception" % pid, "%r" % (o["thread_exceptions"],)))
+        if pid == "C06":
+            for kind in ("fifo", "lifo"):
+                got = o[kind]
+                for lab in o["published"]:
+                    n = got.count(lab)
+                    # publications made while the fabric was stopped wait for the next start(): owed as well, but only
+                    # those made while it ran are what the property names
+                    made_running = int(lab.split("r")[1]) < len(p["before"])
+                    if n != 1 and (made_running or n > 1):
+                        out.append(("%s/restart/%s/%s" % (pid, "lost" if n < 1 else "duplicate", kind),
+                                    "publications %r made while the fabric ran, then stop()/start() %r: the %s subscriber holds %s %d "
+                                    "times: %r" % (p["before"], p.get("during"), kind, lab, n, got)))
+                        break
+                stray = [x for x in got if x not in o["published"]]
+                if stray:
+                    out.append(("%s/restart/stray" % pid, "%r" % (stray,)))
+        else:
+            prios = list(p["before"]) + list(p.get("during", ())) * p.get("cycles", 1)
+            if len(set(prios)) == 1:
+                got = [x for x in o["fifo"] if x in o["published"]]
+                want = [x for x in o["published"] if x in got]
+                if got != want:
+                    out.append(("%s/restart/equal-priority-order" % pid, "publications of equal priority %r around stop()/start(): the fifo "
+                                "subscriber received %r, published order %r" % (prios, got, want)))
+        if o["live"] != {"fifo": 1, "lifo": 1}:
+            out.append(("%s/restart/threads" % pid, "live delivery threads after the restart: %r" % (o["live"],)))
+        return out
+
+
+def restart_params(tier):
+    import itertools
+    q = tier == "quick"
+    ps = []
+    for n in (1, 2, 3):
+        for before in itertools.product((1, None), repeat=n):
+            if n == 3 and len(set(before)) > 1 and q:
+                continue
+            ps.append({"before": list(before), "bound": 1 if (q or n == 3) else 2})
+    ps.append({"before": [1, 1], "during": [1], "bound": 1})
+    ps.append({"before": [None, None], "during": [None], "bound": 1})
+    ps.append({"before": [1, 1, 1, 1], "bound": 0 if q else 1})
+    ps.append({"before": [1, 1], "during": [1], "cycles": 2, "bound": 0 if q else 1})
+    return ps
